@@ -485,7 +485,10 @@ def ops_from_json(js):
 
     def pdu_of(hexs):
         raw = bytes.fromhex(hexs)
-        return dulprovider.PDU_TYPES[raw[0]][0].decode(raw)
+        x = dulprovider.PDU_TYPES[raw[0]][0].decode(raw)
+        if raw[0] == 1:
+            x.called_presentation_address = ('127.0.0.1', 11112)      # as mk_rq: AE-1 connects the (fake) transport
+        return x
     out = []
     for op in js:
         k = op[0]
